@@ -20,6 +20,7 @@ RULE = ("scripts against the real sche.MultiSelector/Sche driven step by step: 1
         "every case also runs 1-12 rounds of BOUNDARY work: timers that are already due (delay 0, -1ns, -3s), 1ns, 1ms, period-0 and repeating (cancelled from their 3rd callback) armed from foreign goroutines - "
         "also while the service is held busy - and work produced from INSIDE a posted closure, a timer callback, an event listener and a request handler of the service itself (timers already due, Post to its own scheduler, "
         "Publish on its own event centre): every such piece must run on the loop goroutine and must not start before the piece that produced it has ended (nesting shows as two pieces in flight); "
+        "3 of 8 cases spawn 2, 9, 10, 11, 12 or 30 actors from ONE props (one dispatcher queue of 9 mailbox batches, one run service): while the loop is held every actor gets a request, so from 11 actors on the posters must block in scheDisp.Schedule; "
         "every fifth case a lopsided single-kind mix). Non-trivial = a user handler ran at least once (scripts) / any stress case; distinct = distinct annotated op lists.")
 TRUSTED_BASE = [
     "Coq 8.16.1 kernel + vm_compute (case evaluation, Examples); no native_compute",
@@ -34,7 +35,9 @@ TRUSTED_BASE = [
     "protoactor (mailbox -> Dispatcher.Schedule), time.AfterFunc, the Go scheduler; fairness of reflect.Select is NOT assumed by any theorem",
 ]
 ASSUMPTIONS = [
-    "not overflowed: scheDisp.chanTask (capacity 9) - a mailbox has at most one scheduled run pending, so one or two actors cannot fill it; requests pile up in the unbounded mailbox instead",
+    "liveness is NOT claimed: on unchanged code an actor that sends, inside one handler, to >= 10 idle sibling actors of its own props blocks the service goroutine for good in scheDisp.Schedule "
+    "(hooks/C04-repro-sibling-fanout-deadlock.patch), and a mailbox that re-schedules itself from the loop while the dispatcher queue is full would do the same; the many-actor stress cases are arranged so that neither happens "
+    "(traffic that may arrive at any time goes to at most 9 mailboxes)",
     "HandleOnce is called from one goroutine only (runservice.RunService.loop is the only caller); Examples C04_two_consumers_* show what breaks otherwise",
     "handlers do not themselves close or re-register channels in the model (they are opaque: they record the value)",
     "progress theorem C04_no_task_lost: producers are quiescent while the consumer drains; under never-ending production eventual handling needs fairness of reflect.Select (not proved)",
@@ -45,7 +48,7 @@ TECHNIQUE = ("Coq proof (inductive invariant of the MultiSelector machine over a
 LEVEL_TEXT = ("PARTIAL. Proved in Coq, for all histories / all schedules, about the MODEL of sche.MultiSelector and of the single consumer loop: runnings[i] always owns cases[i] and every handler invocation "
               "is for a value from its own channel (C04_selector_index, C04_handler_owns_channel); per channel, what was enqueued = what was handed to handlers, in order, exactly once, + what is still queued "
               "(C04_task_accounting); a queued task on a registered live channel is always selectable and a draining consumer hands over everything (C04_task_enabled, C04_no_task_lost); with ONE consumer process "
-              "and arbitrary concurrent producers at most one task is running, run by the consumer, never an index panic, never parked on stale cases while work is pending (C04_one_at_a_time, C04_no_missed_wakeup, C04_handler_runs_to_completion, C04_producers_never_run_handlers); the monitor applied to implementation traces accepts every trace of the model (C04_monitor_sound). "
+              "and arbitrary concurrent producers at most one task is running, run by the consumer, never an index panic, never parked on stale cases while work is pending (C04_one_at_a_time, C04_no_missed_wakeup, C04_handler_runs_to_completion, C04_producers_never_run_handlers); the same with any number of actor mailboxes feeding the dispatcher queue of capacity 9 (C04_dispatcher_one_at_a_time, C04_blocked_schedule_is_noop); the monitor applied to implementation traces accepts every trace of the model (C04_monitor_sound). "
               "C04_funnel_total (every work kind has a channel whose items all reach the consumer) is true BY CONSTRUCTION of the funnel table. "
               "NOT provable in any Gallina model and therefore MEASURED on the running code each run: that the real entry points (request/notify handler, response and timeout callback, timer callback, "
               "posted closure, local/global event, session add/remove/message) really go through those channels and really execute on the service's one loop goroutine, one at a time - "
